@@ -48,6 +48,16 @@ STATED = {
 KINDS = {ValueError: "Value", TypeError: "Type", ZeroDivisionError: "ZeroDivision", InvalidAverageRunLengthError: "InvalidAverageRunLength"}
 
 
+def kind_of(e):
+    """the kind of a rejection: the dedicated error, else the first of ValueError / TypeError / ZeroDivisionError the exception IS (a subclass of ValueError is a ValueError)"""
+    if isinstance(e, InvalidAverageRunLengthError):
+        return "InvalidAverageRunLength"
+    for t, k in ((ValueError, "Value"), (TypeError, "Type"), (ZeroDivisionError, "ZeroDivision")):
+        if isinstance(e, t):
+            return k
+    return None
+
+
 def construct(cls: str, params: dict):
     try:
         cfg = dets.make_config(cls, params)
@@ -97,6 +107,19 @@ def operable(out: Outcome, rng, cls: str, params: dict, thorough: bool) -> None:
 NUMPY2_ONLY = {"concat", "permute_dims", "matrix_transpose", "vecdot", "astype", "acos", "acosh", "asin", "asinh", "atan", "atanh", "atan2", "pow", "bitwise_left_shift",
                "bitwise_right_shift", "bitwise_invert", "unique_all", "unique_counts", "unique_inverse", "unique_values", "cumulative_sum", "cumulative_prod", "isdtype", "long",
                "ulong", "bitwise_count", "unstack", "trapezoid", "StringDType", "strings"}
+
+
+# standard-library names newer than Python 3.9 (name -> minor version that introduced it); a denylist like NUMPY2_ONLY: incomplete by nature
+STDLIB_NEWER = {
+    "typing": {"TypeAlias": 10, "ParamSpec": 10, "Concatenate": 10, "TypeGuard": 10, "ParamSpecArgs": 10, "ParamSpecKwargs": 10, "is_typeddict": 10, "Self": 11, "LiteralString": 11,
+               "Never": 11, "assert_never": 11, "assert_type": 11, "reveal_type": 11, "Required": 11, "NotRequired": 11, "Unpack": 11, "TypeVarTuple": 11, "dataclass_transform": 11,
+               "override": 12, "TypeAliasType": 12, "get_overloads": 11, "clear_overloads": 11},
+    "itertools": {"pairwise": 10, "batched": 12},
+    "statistics": {"correlation": 10, "covariance": 10, "linear_regression": 10},
+    "bisect": {}, "math": {"cbrt": 11, "exp2": 11, "sumprod": 12},
+    "functools": {}, "contextlib": {"aclosing": 10, "chdir": 11}, "enum": {"StrEnum": 11, "verify": 11, "member": 11, "nonmember": 11},
+    "tomllib": {"load": 11, "loads": 11}, "datetime": {"UTC": 11}, "operator": {"call": 11},
+}
 
 
 def declared_environment(out: Outcome) -> None:
@@ -164,8 +187,20 @@ def declared_environment(out: Outcome) -> None:
         except SyntaxError as e:
             out.violation(f"{rel}: not valid Python 3.{minor} (the declared minimum): {e.msg}", {"kind": "syntax", "file": rel})
             continue
+        # optional dependencies and newer APIs used behind a guard are fine: an import inside `try: ... except ImportError`, a name tested with `hasattr` first
+        guarded = set()
+        for node in ast.walk(tree):
+            if isinstance(node, ast.Try) and any(h.type is None or any(nm in ast.dump(h.type) for nm in ("ImportError", "ModuleNotFoundError", "AttributeError", "Exception")) for h in node.handlers):
+                for sub in node.body:
+                    guarded |= {id(x) for x in ast.walk(sub)}
+            if isinstance(node, (ast.If, ast.IfExp)) and "hasattr" in ast.dump(node.test):
+                guarded |= {id(x) for x in ast.walk(node)}
         np_aliases = set()
         for node in ast.walk(tree):
+            if id(node) in guarded:
+                if isinstance(node, ast.Import):
+                    np_aliases |= {a.asname or a.name for a in node.names if a.name == "numpy"}
+                continue
             mods = []
             if isinstance(node, ast.Import):
                 mods = [a.name for a in node.names]
@@ -177,6 +212,17 @@ def declared_environment(out: Outcome) -> None:
                 if top not in stdlib and top != "frouros" and top.lower() not in declared:
                     out.violation(f"{rel}: imports '{top}', which is neither the standard library nor a declared dependency ({sorted(declared)})", {"kind": "undeclared import", "file": rel, "module": top})
         for node in ast.walk(tree):
+            if id(node) in guarded:
+                continue
+            if isinstance(node, ast.ImportFrom) and node.level == 0 and node.module in STDLIB_NEWER:
+                for a in node.names:
+                    if a.name in STDLIB_NEWER[node.module] and STDLIB_NEWER[node.module][a.name] > minor:
+                        out.violation(f"{rel}:{node.lineno}: `from {node.module} import {a.name}` needs Python 3.{STDLIB_NEWER[node.module][a.name]}, the package declares >= 3.{minor}",
+                                      {"kind": "stdlib api", "file": rel, "name": f"{node.module}.{a.name}"})
+            if isinstance(node, ast.Attribute) and isinstance(node.value, ast.Name) and node.value.id in STDLIB_NEWER and node.attr in STDLIB_NEWER[node.value.id] \
+                    and STDLIB_NEWER[node.value.id][node.attr] > minor:
+                out.violation(f"{rel}:{node.lineno}: {node.value.id}.{node.attr} needs Python 3.{STDLIB_NEWER[node.value.id][node.attr]}, the package declares >= 3.{minor}",
+                              {"kind": "stdlib api", "file": rel, "name": f"{node.value.id}.{node.attr}"})
             if isinstance(node, ast.Attribute) and isinstance(node.value, ast.Name) and node.value.id in (np_aliases or {"np"}) and node.attr in NUMPY2_ONLY:
                 out.violation(f"{rel}:{node.lineno}: numpy.{node.attr} exists only from NumPy 2.0 on, the package declares numpy >= 1.26.3", {"kind": "numpy api", "file": rel, "name": node.attr})
     out.case({"declared_environment_audit": True, "python_min": f"3.{minor}", "declared": sorted(declared)})
@@ -209,10 +255,10 @@ def run(out: Outcome) -> None:
                     if (err is None) != stated_ok:
                         out.violation(f"{cls}Config({name}={v!r}, ...): {'accepted' if err is None else 'rejected with ' + type(err).__name__} but the stated domain says "
                                       f"{'accept' if stated_ok else 'reject'}", rep)
-                    elif err is not None and type(err) not in KINDS:
+                    elif err is not None and kind_of(err) is None:
                         out.violation(f"{cls}Config({name}={v!r}): rejected with {type(err).__name__}, not ValueError/TypeError/its dedicated error", rep)
                     lines.append(cfg_line(cls, prm))
-                    expect.append((None if err is None else KINDS.get(type(err), "Other"), rep))
+                    expect.append((None if err is None else (kind_of(err) or "Other"), rep))
                     if err is None and (thorough or rng.random() < 0.25):
                         operable(out, rng, cls, prm, thorough)
                     out.case({"class": cls, "params": prm})
@@ -292,7 +338,7 @@ def run(out: Outcome) -> None:
             GaussianUnknownMean(prior_mean=0.0, prior_var=pv, data_var=dv)
             k = None
         except Exception as e:  # noqa: BLE001
-            k = KINDS.get(type(e), "Other")
+            k = (kind_of(e) or "Other")
         lines.append(f"cfg Gaussian prior_var={f2h(pv)} data_var={f2h(dv)}")
         expect.append((k, {"class": "GaussianUnknownMean", "prior_var": pv, "data_var": dv}))
         if not dv > 0 and k is None:
@@ -306,7 +352,7 @@ def run(out: Outcome) -> None:
             PermutationTestDistanceBased(num_permutations=npm, total_num_permutations=tot, num_jobs=jobs)
             k = None
         except Exception as e:  # noqa: BLE001
-            k = KINDS.get(type(e), "Other")
+            k = (kind_of(e) or "Other")
         stated = 1 <= npm <= 1000000 and (tot is None or 1 <= tot <= 1000000) and (jobs == -1 or jobs > 0)
         if (k is None) != stated:
             out.violation(f"PermutationTestDistanceBased(num_permutations={npm}, total_num_permutations={tot}, num_jobs={jobs}): "
@@ -329,7 +375,7 @@ def run(out: Outcome) -> None:
                 mk()
                 k = None
             except Exception as e:  # noqa: BLE001
-                k = KINDS.get(type(e), "Other")
+                k = (kind_of(e) or "Other")
             if (k is None) != stated:
                 out.violation(f"{name}(alpha={a!r}) {'accepted' if k is None else 'rejected'} but the stated domain says {'accept' if stated else 'reject'}", {"class": name, "alpha": a})
             lines.append(tag)
@@ -346,7 +392,7 @@ def run(out: Outcome) -> None:
                 mk()
                 k = None
             except Exception as e:  # noqa: BLE001
-                k = KINDS.get(type(e), "Other")
+                k = (kind_of(e) or "Other")
             if (k is None) != (v >= 1):
                 out.violation(f"{name}={v} {'accepted' if k is None else 'rejected'} but the stated domain is > 0", {"constructor": name, "value": v})
             lines.append(tag)
